@@ -31,7 +31,9 @@ def run(ctx):
     atts = [x for x in rows if x["kind"] == "attempt"]
     distinct = len({json.dumps([x["p"], x["l"], {h: [y["ro"], y["exec"], y["recv"], y["pend"], y["up"]] for h, y in x["hosts"].items()}],
                                sort_keys=True) for x in promos})
+    skel = cluster.skeleton_rows(ctx, rows)
     cov = {
+        "control_skeleton": skel,
         "states": mc["distinct"], "transitions": mc["generated"],
         "traces_validated_against_impl": meta["runs"],
         "evaluations": meta["runs"], "distinct_nontrivial": distinct,
